@@ -4,6 +4,7 @@ import Drivers.Tables
 import Drivers.Containers
 import Drivers.Geom
 import Drivers.Search
+import Drivers.Matrix
 
 /-! `refdrv <driver> [args]` : dispatch to a line-protocol driver. One match arm per driver, on one line. -/
 
@@ -13,6 +14,7 @@ def main (args : List String) : IO UInt32 := do
   | "containers" :: rest => Drivers.Containers.run rest
   | "geom" :: rest => Drivers.Geom.run rest
   | "search" :: rest => Drivers.Search.run rest
+  | "matrix" :: rest => Drivers.Matrix.run rest
   | _ =>
     IO.eprintln s!"refdrv: unknown driver {args}"
     return 2
